@@ -13,7 +13,7 @@ RULE = ("Programs are lists of items (NOP, RMB n, LDA 100,X, LDX #$1234, a branc
         "/ label+-k,PCR operand) with labels attached to items, so every byte distance is known by construction. "
         "Enumerated: every short branch x both directions x every displacement -140..+140; every long branch x both "
         "directions x 0..140 (all 19) and 32750..32780 (LBRA LBSR LBEQ LBNE); all 38 branches to label+-k (k in 1,2,5) "
-        "at four distances, which may be refused but if accepted must reach label+k; label,pcr / [label,Pcr] (register in lower or mixed case: refused, or the PC-relative form); label,PCR on LDA LEAX STA JMP (1-byte "
+        "at four distances, which may be refused but if accepted must reach label+k; branches and label,PCR operands whose label begins with a digit (2ND, 0PAGE: refused, or reaching the label); label,pcr / [label,Pcr] (register in lower or mixed case: refused, or the PC-relative form); label,PCR on LDA LEAX STA JMP (1-byte "
         "opcode) and LDY STS CMPD (2-byte) x plain/indirect x k in {-2,0,+2} x both directions x distance 0..140 with "
         "three filler styles, and 32750..32780 for LDA/LDY; constants of +-100..200 with the label in either order of "
         "writing (T0+120 and 120+T0) at distances 0..35; offsets written with an explicit < or > prefix at distances "
@@ -166,6 +166,21 @@ def enumerated(tier, seed):
                     for dist in (0, 5, 130):
                         for forward in (True, False):
                             yield one_source(dict(t="pcr", mn=mn, ind=ind, to="T0", k=k, reg=reg), dist, forward, dist % 3)
+    # 1d. a target label whose name begins with a digit (2ND, 0PAGE): the tool takes such names; whether or not it
+    #     keeps doing so, an accepted reference must reach the label and not be read as a number
+    for name in ("2ND", "1ST", "0PAGE", "3D"):
+        for src in (dict(t="br", mn="BRA"), dict(t="br", mn="LBSR"), dict(t="br", mn="BNE"), dict(t="pcr", mn="LEAX", ind=False, k=0),
+                    dict(t="pcr", mn="LDY", ind=True, k=0), dict(t="pcr", mn="LDA", ind=False, k=1)):
+            for dist in (0, 5, 130):
+                for forward in (True, False):
+                    case = one_source(dict(src, to="T0"), dist, forward, dist % 3)
+                    for it in case["items"]:
+                        if it.get("label") == "T0":
+                            it["label"] = name
+                        if it.get("to") == "T0":
+                            it["to"] = name
+                    case["odd_label"] = True
+                    yield case
     # 2. long branches
     for mn in LONG:
         far = range(32750, 32781) if mn in ("LBRA", "LBSR", "LBEQ", "LBNE") else []
@@ -428,6 +443,9 @@ def execute(case):
                 must_reject = True
             if dmax > 127 or dmin < -128:
                 may_reject = True
+    if case.get("odd_label"):
+        may_reject = True
+        labels.append("label_begins_with_digit")
     npcr = sum(1 for i in rel_idx if items[i]["t"] == "pcr")
     if near:
         labels.append("near_limit")
